@@ -30,3 +30,30 @@ def showRanges (rs : List (Nat × Nat)) : String := showList (rs.map showRange)
 def showNats (xs : List Nat) : String := showList (xs.map toString)
 
 end Driver
+
+namespace Driver
+
+/-- The line protocol loop shared by all per-property drivers: one op per line on stdin, one
+canonical answer per line on stdout.  `# case …` lines are echoed and reset the model state;
+other `#` lines are echoed.  An op the model's parser rejects answers `bad-op`. -/
+partial def runLoop {σ : Type} (init : σ) (step : σ → List String → Option (σ × String)) : IO Unit := do
+  let inp ← IO.getStdin
+  let out ← IO.getStdout
+  let rec go (st : σ) : IO Unit := do
+    let line ← inp.getLine
+    if line.isEmpty then return ()
+    let toks := splitWs line
+    match toks with
+    | [] => out.putStrLn ""; go st
+    | t :: rest =>
+      if t.startsWith "#" then
+        out.putStrLn line.trimAscii.toString
+        if rest.head? = some "case" then go init else go st
+      else
+        match step st toks with
+        | some (st', o) => out.putStrLn o; go st'
+        | none => out.putStrLn "bad-op"; go st
+  go init
+  out.flush
+
+end Driver
